@@ -62,3 +62,33 @@ void hq_hwloc_bitmap_compare_first(void) { VERIF_GHOSTS(); struct hwloc_bitmap_s
 void hq_hwloc_bitmap_singlify(void) { VERIF_GHOSTS(); struct hwloc_bitmap_s *s; hwloc_bitmap_singlify(s); VERIF_CANARY(); }
 void h_hwloc_bitmap_compare_inclusion(void) { VERIF_GHOSTS(); struct hwloc_bitmap_s *a, *b; hwloc_bitmap_compare_inclusion(a, b); VERIF_CANARY(); }
 void hq_hwloc_bitmap_compare_inclusion(void) { VERIF_GHOSTS(); struct hwloc_bitmap_s *a, *b; hwloc_bitmap_compare_inclusion(a, b); VERIF_CANARY(); }
+void hq_hwloc_bitmap_weight(void) { VERIF_GHOSTS(); struct hwloc_bitmap_s *s; hwloc_bitmap_weight(s); VERIF_CANARY(); }
+
+/* ---- plain (loop-free, full-domain) harnesses for the word-level helpers of include/private/misc.h ---- */
+void hp_hwloc_flsl(void)
+{
+  unsigned long x = nondet_ulong();
+  int r = hwloc_flsl(x);                       /* = hwloc_flsl_manual in this configuration */
+  __CPROVER_assert((r == 0) == (x == 0), "flsl: 0 iff no bit set");
+  __CPROVER_assert(r >= 0 && r <= 64, "flsl: range");
+  __CPROVER_assert(x == 0 || (x >> (r - 1)) == 1UL, "flsl: r-1 is the highest set bit");
+  VERIF_CANARY();
+}
+void hp_hwloc_ffsl(void)
+{
+  unsigned long x = nondet_ulong();
+  int r = hwloc_ffsl(x);                       /* = __builtin_ffsl in this configuration */
+  __CPROVER_assert((r == 0) == (x == 0), "ffsl: 0 iff no bit set");
+  __CPROVER_assert(r >= 0 && r <= 64, "ffsl: range");
+  __CPROVER_assert(x == 0 || (((x >> (r - 1)) & 1UL) == 1UL && (x & ((1UL << (r - 1)) - 1UL)) == 0UL), "ffsl: r-1 is the lowest set bit");
+  VERIF_CANARY();
+}
+void hp_hwloc_weight_long(void)
+{
+  unsigned long x = nondet_ulong();
+  int r = hwloc_weight_long(x), n = 0;
+  unsigned b;
+  for (b = 0; b < 64; b++) n += (int)((x >> b) & 1UL);
+  __CPROVER_assert(r == n, "weight_long: number of set bits");
+  VERIF_CANARY();
+}
